@@ -138,6 +138,12 @@ def r_bind(rep: Report, site, k: Kernel, afile="hdc/algo/accessors.py", rule="R-
         if isinstance(val, ast.Name) and val.id in params and val.id != kw and not (kw, val.id) in ALLOWED_KW_RENAMES:
             ob(f"keyword `{kw}` is not fed from the variable of another parameter", False,
                f"{kw}={val.id}", f"{tag} {kw}={val.id}")
+    # provenance of the data argument: the accessor's object itself, through value-preserving steps only
+    if site.args and site.fn is not None:
+        bad_steps = data_provenance(site.fn, site.args[0])
+        ob("the data argument is the accessor's object, not a converted copy", not bad_steps,
+           "; ".join(f"`{b}`" for b in bad_steps[:3]) + " changes the cells before the kernel compares them with nodata / computes on them" if bad_steps else "",
+           f"{tag} data argument provenance")
     if site.mode != "apply_ufunc":
         return
     icd = const_list(site.opts.get("input_core_dims"))
@@ -257,3 +263,200 @@ def input_writes(k: Kernel) -> List[ast.AST]:
                 and (st.args[2].id in ins or st.args[2].id in alias) and not rebinds.get(st.args[2].id, 10 ** 9) < st.lineno:
             bad.append(st)
     return bad
+
+
+def nb_layout(rep: Report, kernels: Dict[str, Kernel], names: Optional[Iterable[str]] = None, rule: str = "NB-LAYOUT"):
+    """No gufunc signature may declare a contiguous layout (`[::1]`): NumPy hands the inner loop strided views (a moved time axis,
+    a column of a table, a reversed slice), and a kernel compiled for `::1` ignores the stride it is given and reads neighbouring memory."""
+    n = 0
+    for name in sorted(names if names is not None else kernels):
+        k = kernels[name]
+        if k.kind != "guvectorize":
+            continue
+        n += 1
+        bad = [(si + 1, k.params[i], lay) for si, lays in enumerate(k.layouts) for i, lay in enumerate(lays) if lay != "A"]
+        rep.ob(rule, k.file, name, "every array parameter of the gufunc is declared with arbitrary strides", not bad,
+               "; ".join(f"signature #{si} declares `{pn}` {lay}-contiguous (`::1`): a strided view passed for it is indexed as if it were packed" for si, pn, lay in bad),
+               f"{name}: declared array layouts", line=k.node.lineno)
+    return n
+
+
+def _truthy_uses(fn: ast.AST, names: Set[str]) -> List[ast.AST]:
+    """Nodes of `fn` where one of `names` is used for its truth value (`if x`, `not x`, `x or y`, `x and y`, `a if x else b`, `bool(x)`)."""
+    out: List[ast.AST] = []
+
+    def is_tracked(e) -> bool:
+        return isinstance(e, ast.Name) and e.id in names
+
+    def scan_test(t):
+        if is_tracked(t):
+            out.append(t)
+        elif isinstance(t, ast.UnaryOp) and isinstance(t.op, ast.Not):
+            scan_test(t.operand)
+        elif isinstance(t, ast.BoolOp):
+            for v in t.values:
+                scan_test(v)
+
+    for n in ast.walk(fn):
+        if isinstance(n, (ast.If, ast.While, ast.IfExp, ast.Assert)):
+            scan_test(n.test)
+        elif isinstance(n, ast.BoolOp):
+            for v in n.values:
+                if is_tracked(v) or (isinstance(v, ast.UnaryOp) and isinstance(v.op, ast.Not) and is_tracked(v.operand)):
+                    out.append(v)
+        elif isinstance(n, ast.UnaryOp) and isinstance(n.op, ast.Not) and is_tracked(n.operand):
+            out.append(n)
+        elif isinstance(n, ast.Call) and isinstance(n.func, ast.Name) and n.func.id == "bool" and n.args and is_tracked(n.args[0]):
+            out.append(n)
+        elif isinstance(n, ast.comprehension):
+            for t in n.ifs:
+                scan_test(t)
+    seen, uniq = set(), []
+    for o in out:
+        if id(o) not in seen:
+            seen.add(id(o))
+            uniq.append(o)
+    return uniq
+
+
+def r_truthy(rep: Report, repo: Repo, cls: str, method: str, names: Iterable[str], why: str, afile="hdc/algo/accessors.py", module="hdc.algo.accessors"):
+    """Values whose domain contains 0 (a nodata value, an axis label) must be tested with `is None`, never for truth.
+
+    Follows one level of calls: `self.helper(x)` / a nested `helper(x)` with a tracked argument is scanned with the matching parameter tracked."""
+    fn = repo.method(module, cls, method)
+    names = set(names)
+    where = f"{cls}.{method}"
+    bad = [(where, u) for u in _truthy_uses(fn, names)]
+    clsnode = repo.mod(module).tree   # helper methods may live in the class or one of its bases: search the module by method name
+    nested = {n.name: n for n in ast.walk(fn) if isinstance(n, ast.FunctionDef) and n is not fn}
+    n_calls = 0
+    for c in ast.walk(fn):
+        if not isinstance(c, ast.Call):
+            continue
+        callee = None
+        if isinstance(c.func, ast.Attribute) and isinstance(c.func.value, ast.Name) and c.func.value.id == "self" and clsnode is not None:
+            for st in ast.walk(clsnode):
+                if isinstance(st, ast.FunctionDef) and st.name == c.func.attr:
+                    callee, skip = st, 1
+        elif isinstance(c.func, ast.Name) and c.func.id in nested:
+            callee, skip = nested[c.func.id], 0
+        if callee is None:
+            continue
+        params = [a.arg for a in callee.args.args][skip:]
+        tracked = {params[i] for i, a in enumerate(c.args) if i < len(params) and isinstance(a, ast.Name) and a.id in names}
+        tracked |= {k_.arg for k_ in c.keywords if k_.arg and isinstance(k_.value, ast.Name) and k_.value.id in names}
+        if tracked:
+            n_calls += 1
+            bad += [(f"{where} -> {callee.name}", u) for u in _truthy_uses(callee, tracked)]
+    # an explicit argument is replaced only when it is None
+    params = {a.arg for a in fn.args.args + fn.args.kwonlyargs}
+    par: Dict[int, ast.AST] = {}
+    for p_ in ast.walk(fn):
+        for ch in ast.iter_child_nodes(p_):
+            par[id(ch)] = p_
+    for nm in sorted(names & params):
+        stores = [n for n in ast.walk(fn) if isinstance(n, ast.Name) and n.id == nm and isinstance(n.ctx, ast.Store)]
+        for st in stores:
+            ok = False
+            cur, child = par.get(id(st)), st
+            while cur is not None and cur is not fn:
+                if isinstance(cur, ast.If):
+                    t = ast.unparse(cur.test)
+                    in_body = any(child is b for b in cur.body)
+                    in_test = child is cur.test
+                    if (in_body or in_test) and t in (f"{nm} is None", f"None is {nm}"):
+                        ok = True
+                    if any(child is b for b in cur.orelse) and t in (f"{nm} is not None",):
+                        ok = True
+                child, cur = cur, par.get(id(cur))
+            stmt = st
+            while not isinstance(stmt, ast.stmt):
+                stmt = par[id(stmt)]
+            rep.ob("R-TRUTHY", afile, where, f"the `{nm}` argument is replaced only when it is None", ok,
+                   f"`{norm_stmt(stmt)[:120]}` (line {st.lineno}) overwrites an explicitly given {nm}", stmt, line=st.lineno)
+    for w, u in bad:
+        rep.ob("R-TRUTHY", afile, where, f"{'/'.join(sorted(names))} is tested with `is None`, never for truth", False,
+               f"`{ast.unparse(u)}` in {w} (line {u.lineno}) uses the value's truthiness: {why}", u, line=u.lineno)
+    if not bad:
+        rep.ob("R-TRUTHY", afile, where, f"{'/'.join(sorted(names))} is tested with `is None`, never for truth", True,
+               f"helpers followed: {n_calls}", f"{where}: truth-value uses of {sorted(names)}")
+
+
+def guard_chain(fn: ast.AST, node: ast.AST) -> List[tuple]:
+    """(test text, arm) of every If / loop / try that encloses `node` inside `fn`, outermost first."""
+    par: Dict[int, ast.AST] = {}
+    for p_ in ast.walk(fn):
+        for ch in ast.iter_child_nodes(p_):
+            par[id(ch)] = p_
+    chain = []
+    child, cur = node, par.get(id(node))
+    while cur is not None and cur is not fn:
+        if isinstance(cur, ast.If):
+            if any(child is b for b in cur.body):
+                chain.append((ast.unparse(cur.test), True))
+            elif any(child is b for b in cur.orelse):
+                chain.append((ast.unparse(cur.test), False))
+        elif isinstance(cur, (ast.For, ast.While)):
+            if any(child is b for b in cur.body):
+                chain.append((f"loop {ast.unparse(cur.target) if isinstance(cur, ast.For) else ast.unparse(cur.test)}", True))
+        elif isinstance(cur, ast.Try):
+            if any(child is b for b in cur.body):
+                chain.append(("try", True))
+            elif any(child is h for h in cur.handlers):
+                chain.append(("except", True))
+        child, cur = cur, par.get(id(cur))
+    return list(reversed(chain))
+
+
+def reaches_unconditionally(fn: ast.AST, stmt: ast.AST, uses: Iterable[ast.AST]) -> Optional[str]:
+    """None when `stmt` executes before, and under no more conditions than, every node of `uses`; else a description of the gap."""
+    cs = guard_chain(fn, stmt)
+    for u in uses:
+        cu = guard_chain(fn, u)
+        if cs != cu[: len(cs)]:
+            extra = [c for c in cs if c not in cu]
+            return f"runs only under {extra} while line {getattr(u, 'lineno', '?')} does not depend on them"
+        if getattr(stmt, "lineno", 0) >= getattr(u, "lineno", 0):
+            return f"comes after its use at line {getattr(u, 'lineno', '?')}"
+    return None
+
+
+VALUE_PRESERVING_METHODS = {"chunk", "sortby", "transpose", "rechunk", "persist", "copy", "compute", "load"}
+
+
+def data_provenance(fn: ast.AST, expr: ast.AST, _seen=None) -> List[str]:
+    """Steps between `self._obj` and `expr` that are not value-preserving (flow-insensitive over every assignment to the names involved).
+
+    Accepted: self._obj, X.data, X.chunk()/sortby()/transpose()..., X.where(X.notnull(), X.nodata) (NaN -> nodata substitution),
+    X[...] plain slicing. Everything else (astype, fillna, arithmetic, np.asarray(..., dtype=)) is reported."""
+    _seen = _seen if _seen is not None else set()
+    txt = ast.unparse(expr)
+    if txt == "self._obj":
+        return []
+    if isinstance(expr, ast.Name):
+        if expr.id in _seen:
+            return []
+        _seen.add(expr.id)
+        defs = [st.value for st in ast.walk(fn) if isinstance(st, ast.Assign) and any(isinstance(t, ast.Name) and t.id == expr.id for t in st.targets)]
+        defs += [st.value for st in ast.walk(fn) if isinstance(st, ast.NamedExpr) and st.target.id == expr.id]
+        if not defs:
+            params = [a.arg for a in fn.args.args]
+            return [] if expr.id in params else [f"{expr.id} (no definition found)"]
+        out: List[str] = []
+        for d in defs:
+            out += data_provenance(fn, d, _seen)
+        return out
+    if isinstance(expr, ast.Attribute) and expr.attr in ("data", "values", "T"):
+        return data_provenance(fn, expr.value, _seen)
+    if isinstance(expr, ast.Subscript):
+        return data_provenance(fn, expr.value, _seen)
+    if isinstance(expr, ast.Call) and isinstance(expr.func, ast.Attribute):
+        m = expr.func.attr
+        if m in VALUE_PRESERVING_METHODS:
+            return data_provenance(fn, expr.func.value, _seen)
+        if m == "where" and len(expr.args) == 2:
+            base = ast.unparse(expr.func.value)
+            if ast.unparse(expr.args[0]) == f"{base}.notnull()" and ast.unparse(expr.args[1]) in (f"{base}.nodata", f"{base}.attrs['nodata']"):
+                return data_provenance(fn, expr.func.value, _seen)
+        return [txt[:100]]
+    return [txt[:100]]
